@@ -191,10 +191,10 @@ class _P:
         self.c, self.detail = c, detail
 
     def check(self, cond, label):
-        self.c.prove(cond, label, self.detail(label))
+        self.c.prove(cond, label, self.detail(label), fatal=False)
 
     def eq(self, a, b, label):
-        self.c.prove(a == b, label, self.detail(label))
+        self.c.prove(a == b, label, self.detail(label), fatal=False)
 
 
 class _CP:
